@@ -55,6 +55,11 @@ type runS struct {
 	bad     string
 	sched   []string
 	nready  []int // number of ready threads at each choice (for DFS)
+	// walkLock: the walk goroutine also parks inside every queue insertion (between the
+	// visit of a leaf and its insertion); see release
+	walkLock bool
+	walking  []bool
+	syncDone []bool
 }
 
 func hookS(point string) {
@@ -77,6 +82,9 @@ func runSched(cs *Case, decide func(ready []string, k int) int) (*runS, *Obs) {
 	r.sc = NewSched()
 	r.sc.HangAfter = 5 * time.Second
 	r.snaps = make([][]string, len(cs.Subs))
+	r.walking = make([]bool, len(cs.Subs))
+	r.syncDone = make([]bool, len(cs.Subs))
+	r.walkLock = cs.WalkLock
 	r.ended = make([]bool, len(cs.Subs))
 	curRun.Store(r)
 	defer curRun.Store(nil)
@@ -197,6 +205,29 @@ func runSched(cs *Case, decide func(ready []string, k int) int) (*runS, *Obs) {
 				ready = append(ready, t)
 			}
 		}
+		if r.walkLock {
+			// while a walk is under way only writers and that walker move (there is no
+			// finer label than the whole walk); a sender starts after its sync insertion
+			mid := -1
+			for i, w := range r.walking {
+				if w {
+					mid = i
+				}
+			}
+			var rs []*Thread
+			for _, t := range ready {
+				i := t.ID % 100
+				switch {
+				case mid >= 0 && !((t.Name[0] == 'w' && (t.LastKind == "start" || t.LastKind == "op")) || (t.Name[0] == 'k' && i == mid)):
+					// (a writer parked before an announcement stays parked: its insertion would
+					// land in the middle of the walk's, which has one label only)
+				case t.Name[0] == 'x' && !r.syncDone[i] && !cs.Subs[i].UO:
+				default:
+					rs = append(rs, t)
+				}
+			}
+			ready = rs
+		}
 		if len(ready) == 0 {
 			break
 		}
@@ -228,7 +259,7 @@ func runSched(cs *Case, decide func(ready []string, k int) int) (*runS, *Obs) {
 	// quiescent?
 	for _, t := range r.sc.threads() {
 		if t.status == stParked && r.bad == "" {
-			r.bad = "step bound reached with threads still ready"
+			r.bad = "step bound reached with threads still ready (or a walk that cannot end)"
 		}
 	}
 	obs := &Obs{Dump: r.e.dump(), Snaps: r.snaps, Bad: r.bad, Steps: r.trace}
@@ -287,13 +318,30 @@ func (r *runS) release(t *Thread) {
 		r.curSub = idx
 		r.trace = append(r.trace, fmt.Sprintf("s%d %s", idx, t.LastKind+t.LastPoint))
 	case 'k':
-		if t.LastPoint == "process:before-walk" {
+		switch {
+		case r.walkLock && t.LastKind == "at" && t.LastPoint == "process:before-walk":
+			// the walk label is emitted when the walk is over (arrival at before-sync): the
+			// walker parks inside every insertion, i.e. inside the Query's critical section
+			for _, l := range r.e.dump() {
+				r.snaps[idx] = append(r.snaps[idx], pstr(l.P))
+			}
+			r.walking[idx] = true
+			r.trace = append(r.trace, fmt.Sprintf("k%d walk begins", idx))
+		case r.walkLock && t.LastKind == "insert" && r.walking[idx]:
+			r.trace = append(r.trace, fmt.Sprintf("k%d inserts a visited leaf", idx))
+		case r.walkLock && t.LastKind == "insert":
+			r.emit(&stepRec{kind: "sync", s: idx})
+			r.syncDone[idx] = true
+			r.trace = append(r.trace, fmt.Sprintf("k%d sync", idx))
+		case r.walkLock:
+			r.trace = append(r.trace, fmt.Sprintf("k%d to the sync insertion", idx))
+		case t.LastPoint == "process:before-walk":
 			for _, l := range r.e.dump() {
 				r.snaps[idx] = append(r.snaps[idx], pstr(l.P))
 			}
 			r.emit(&stepRec{kind: "walk", s: idx})
 			r.trace = append(r.trace, fmt.Sprintf("k%d walk", idx))
-		} else {
+		default:
 			r.emit(&stepRec{kind: "sync", s: idx})
 			r.trace = append(r.trace, fmt.Sprintf("k%d sync", idx))
 		}
@@ -324,7 +372,7 @@ func (r *runS) release(t *Thread) {
 			r.emit(&stepRec{kind: "unlock", w: xi})
 		}
 		if x.Name[0] == 'w' && ev.Kind == "blocked" {
-			r.trace = append(r.trace, fmt.Sprintf("  %s blocked (%s): another writer holds the target's write mutex", x.Name, ev.Point))
+			r.trace = append(r.trace, fmt.Sprintf("  %s blocked (%s): waits for the target write mutex / the tree lock held by a walk", x.Name, ev.Point))
 		}
 		switch {
 		case ev.Kind == "hang" || ev.Kind == "panic":
@@ -347,6 +395,11 @@ func (r *runS) release(t *Thread) {
 			} else if o.K == "del" && ws.rec != nil {
 				ws.rec.order = append(ws.rec.order, fi.p)
 			}
+		case r.walkLock && x.Name[0] == 'k' && ev.Kind == "at" && ev.Point == "process:before-sync":
+			// the Query (or, with a changed walk, the insertions) are over
+			r.walking[xi] = false
+			r.emit(&stepRec{kind: "walk", s: xi})
+			r.trace = append(r.trace, fmt.Sprintf("  k%d walk over", xi))
 		case x.Name[0] == 's' && ev.Kind == "at" && ev.Point == "subscribe:registered":
 			r.emit(&stepRec{kind: "regall", s: xi})
 		case x.Name[0] == 'x' && ev.Kind == "send":
@@ -476,7 +529,6 @@ func runFree(cs *Case) *Obs {
 	}
 	close(start)
 
-	deadline := time.Now().Add(5 * time.Second)
 	wdone := make(chan struct{})
 	go func() { wg.Wait(); close(wdone) }()
 	select {
@@ -484,51 +536,84 @@ func runFree(cs *Case) *Obs {
 	case <-time.After(5 * time.Second):
 		obs.Bad = "writers did not return within 5 s"
 	}
-	// every stream shows its sync, then every sender is parked in Next's select
-	quiet := false
-	for obs.Bad == "" && time.Now().Before(deadline) {
-		all := true
-		for _, st := range e.streams {
-			has := false
-			for _, r := range st.snapshot() {
-				if r.K == "sync" {
-					has = true
+	// every live stream shows its sync, then every live sender is parked in Next's select
+	gone := make([]bool, len(cs.Subs))
+	waitQuiet := func() bool {
+		dl := time.Now().Add(5 * time.Second)
+		for obs.Bad == "" && time.Now().Before(dl) {
+			all := true
+			for i, st := range e.streams {
+				if gone[i] {
+					continue
+				}
+				has := false
+				for _, r := range st.snapshot() {
+					if r.K == "sync" {
+						has = true
+					}
+				}
+				if !has {
+					all = false
 				}
 			}
-			if !has {
-				all = false
-			}
-		}
-		if all {
-			states := goStates()
-			idle := true
-			for _, st := range e.streams {
-				st.mu.Lock()
-				n := 0
-				for g := range st.goids {
-					s, alive := states[g]
-					if !alive {
+			if all {
+				states := goStates()
+				idle := true
+				for i, st := range e.streams {
+					if gone[i] {
 						continue
 					}
-					n++
-					if s != "select" && s != "chan receive" {
-						idle = false
+					st.mu.Lock()
+					n := 0
+					for g := range st.goids {
+						s, alive := states[g]
+						if !alive {
+							continue
+						}
+						n++
+						if s != "select" && s != "chan receive" {
+							idle = false
+						}
+					}
+					st.mu.Unlock()
+					if n < 2 {
+						idle = false // Subscribe (chan receive on errC) and its sender (select)
 					}
 				}
-				st.mu.Unlock()
-				if n < 2 {
-					idle = false // Subscribe (chan receive on errC) and its sender (select)
+				if idle {
+					return true
 				}
 			}
-			if idle {
-				quiet = true
-				break
-			}
+			time.Sleep(200 * time.Microsecond)
 		}
-		time.Sleep(200 * time.Microsecond)
+		return false
 	}
-	if !quiet && obs.Bad == "" {
+	if !waitQuiet() && obs.Bad == "" {
 		obs.Bad = "no quiescence within 5 s"
+	}
+	// clients that go away, then more writes: the survivors must go on receiving
+	for _, i := range cs.Cancel {
+		if i < 0 || i >= len(e.streams) || gone[i] || obs.Bad != "" {
+			continue
+		}
+		gone[i] = true
+		e.streams[i].cancel()
+		select {
+		case <-subDone[i]:
+		case <-time.After(5 * time.Second):
+			obs.Bad = "Subscribe did not return after its client went away"
+		}
+	}
+	late := false
+	for _, o := range cs.Ops {
+		if o.W == -2 && obs.Bad == "" {
+			late = true
+			delay()
+			e.apply(o)
+		}
+	}
+	if late && !waitQuiet() && obs.Bad == "" {
+		obs.Bad = "no quiescence within 5 s after the late writes"
 	}
 	modeA.Store(nil)
 	obs.Dump = e.dump()
@@ -548,6 +633,20 @@ func runFree(cs *Case) *Obs {
 			obs.Bad = "Subscribe did not return after cancel"
 		}
 	}
+	for i := range ended {
+		if gone[i] {
+			ended[i] = true
+		}
+	}
 	obs.Ended = ended
 	return obs
+}
+
+// hookWalkLock: schedule points inside coalesce.Queue (family S-walk-lock, see walklock.go).
+func hookWalkLock(point string) {
+	if r := curRun.Load(); r != nil && r.walkLock && point == "insert:checked" {
+		if t := r.sc.Self(); t != nil && t.Name[0] == 'k' {
+			t.Stop("insert", nil)
+		}
+	}
 }
